@@ -3,7 +3,7 @@
 # usage: tools/verify_seed.sh <prop> <name> <srcdir>     (srcdir has patch.diff, demo_test.go, PKGDIR, notes.md)
 set -u
 PROP=$1; NAME=$2; SRC=$3
-OUT=/verif/seeded/$PROP/$NAME
+OUT=/verif/seeded/$PROP/${4:-$NAME}
 LOG=$(mktemp)
 WT=/tmp/wt/verify-$PROP-$NAME-$$
 cleanup() { git -C /repo worktree remove --force $WT 2>/dev/null; rm -f $LOG; }
@@ -26,11 +26,12 @@ demo $WT; mut_rc=$?
 demo_tail=$(tail -5 $LOG | tr '\n' ' ' | cut -c1-400)
 # 4. which checks report it
 caught=""; all=""
+SV=/tmp/verifscratch-$$-$PROP-$NAME; mkdir -p $SV; cp /verif/known_findings.json $SV/
 for id in $(cd /verif && bin/ebucheck list); do
-  out=$(cd /verif && VERIF_REPO=$WT bin/ebucheck -repo $WT -verif /tmp/verifscratch-$$-$id $id quick 2>&1); rc=$?
-  rm -rf /tmp/verifscratch-$$-$id
+  out=$(cd /verif && bin/ebucheck -repo $WT -verif $SV $id quick 2>&1); rc=$?
   if [ $rc -ne 0 ]; then all="$all $id"; fi
 done
+rm -rf $SV
 ok=no
 if [ "$clean_rc" = 0 ] && [ "$mut_rc" != 0 ] && echo "$suite" | grep -q "pass=396 fail=0"; then ok=yes; fi
 echo "$PROP/$NAME confirmed=$ok clean_demo_rc=$clean_rc mutant_demo_rc=$mut_rc suite='$suite' caught_by=[$all ]"
@@ -38,15 +39,15 @@ if [ $ok = yes ]; then
   mkdir -p $OUT
   cp $SRC/patch.diff $SRC/demo_test.go $SRC/PKGDIR $OUT/
   [ -f $SRC/notes.md ] && cp $SRC/notes.md $OUT/notes.md
-  python3 - "$PROP" "$NAME" "$suite" "$clean_rc" "$mut_rc" "$all" "$demo_tail" <<'PY'
+  python3 - "$PROP" "$NAME" "$suite" "$clean_rc" "$mut_rc" "$all" "$demo_tail" "${4:-$NAME}" <<'PY'
 import json,sys
-prop,name,suite,crc,mrc,caught,tail=sys.argv[1:8]
-notes=open(f'/verif/seeded/{prop}/{name}/notes.md').read() if __import__('os').path.exists(f'/verif/seeded/{prop}/{name}/notes.md') else ''
-meta={"property":prop,"name":name,"source":"independent sub-agent given only the property text and a scratch worktree",
+prop,name,suite,crc,mrc,caught,tail,outname=sys.argv[1:9]
+notes=open(f'/verif/seeded/{prop}/{outname}/notes.md').read() if __import__('os').path.exists(f'/verif/seeded/{prop}/{outname}/notes.md') else ''
+meta={"property":prop,"name":outname,"source":"independent sub-agent given only the property text and a scratch worktree",
  "needs_to_manifest":notes.strip()[:1500],
  "confirmed":{"suite_with_change":suite,"demo_on_clean_tree_exit":int(crc),"demo_with_change_exit":int(mrc),"demo_output_tail":tail,
    "commands":["git worktree add --detach <wt> HEAD","cp demo_test.go <wt>/<PKGDIR>/ && go test -run TestDemo . (clean: pass)","git apply patch.diff","tools/baseline.sh <wt> (396 pass)","go test -run TestDemo . (with change: fail)","VERIF_REPO=<wt> ./check <ID> quick for every ID"]},
  "reported_by_checks":caught.split()}
-json.dump(meta,open(f'/verif/seeded/{prop}/{name}/meta.json','w'),indent=1)
+json.dump(meta,open(f'/verif/seeded/{prop}/{outname}/meta.json','w'),indent=1)
 PY
 fi
